@@ -7,4 +7,4 @@
    one pending action, which the startup hook replaces by nb_taskpools).
    Only the extraction (the model that is run against the code) depends on
    this file; the theorems of Properties_C15.v are stated for explicit values. *)
-Definition code_precharge : bool := false.
+Definition code_precharge : bool := true.
